@@ -1131,6 +1131,15 @@ func (e *Env) refOrder(m *embList, prefix []interface{}, truth []string, ordered
 	if ordered {
 		return truth
 	}
+	cacheKey := fmt.Sprint(m.name, prefix)
+	if e.V.LongLived {
+		e.V.refMu.Lock()
+		cached, ok := e.V.refCache[cacheKey]
+		e.V.refMu.Unlock()
+		if ok {
+			return cached
+		}
+	}
 	var ref []string
 	var elems []json.RawMessage
 	for page := uint32(0); len(ref) < len(truth) || page == 0; page++ {
@@ -1159,6 +1168,11 @@ func (e *Env) refOrder(m *embList, prefix []interface{}, truth []string, ordered
 		if msg := m.sorted(elems); msg != "" {
 			c.Failf("C18/order", "%s%v: documented order violated: %s", m.name, prefix, msg)
 		}
+	}
+	if e.V.LongLived {
+		e.V.refMu.Lock()
+		e.V.refCache[cacheKey] = ref
+		e.V.refMu.Unlock()
 	}
 	return ref
 }
